@@ -123,6 +123,76 @@ fn drop_race(solo_mode: bool, expected: Option<Vec<Vec<String>>>) {
     }
 }
 
+/// Scenario 5 — replacement templates: every thread replaces through the same regex family (two on
+/// the shared handle, one on a clone made in-thread) with its OWN `$`-template, directly through
+/// `Captures::expand` as well. Whatever a regex, its clones and their `Captures` share must not
+/// carry one caller's template into another caller's output.
+fn templates(solo_mode: bool, expected: Option<Vec<Vec<String>>>) {
+    let pattern = r"(?<k>[a-z])(?<v>[0-9])";
+    const TEMPLATES: [&str; 3] = ["$v:$k", "<${k}>", "$2$1$0"];
+    const TEXTS: [&str; 3] = ["a1 b2 c3", "x9y8", "q0"];
+    fn work(re: &Regex, t: usize) -> Vec<String> {
+        let tmpl = TEMPLATES[t];
+        let mut v = Vec::new();
+        v.push(match re.try_replacen(TEXTS[t % 3], 0, tmpl) {
+            Ok(s) => s.into_owned(),
+            Err(e) => format!("Err({:?})", e),
+        });
+        v.push(match re.captures(TEXTS[(t + 1) % 3]) {
+            Ok(Some(c)) => {
+                let mut dst = String::new();
+                // cheap calls, many of them: the window between two callers' templates is small
+                for _ in 0..6 {
+                    c.expand(tmpl, &mut dst);
+                }
+                dst
+            }
+            Ok(None) => "-".to_string(),
+            Err(e) => format!("Err({:?})", e),
+        });
+        v.push(match re.try_replacen(TEXTS[(t + 2) % 3], 2, tmpl) {
+            Ok(s) => s.into_owned(),
+            Err(e) => format!("Err({:?})", e),
+        });
+        v
+    }
+    if solo_mode {
+        let lines: Vec<String> =
+            (0..3).map(|t| work(&Regex::new(pattern).expect("pattern compiles"), t).join("\u{1}")).collect();
+        print!("{}", lines.join("\u{2}"));
+        return;
+    }
+    let re = Arc::new(Regex::new(pattern).expect("pattern compiles"));
+    let mut handles = Vec::new();
+    for t in 0..3 {
+        let shared = re.clone();
+        handles.push(thread::spawn(move || {
+            if t == 2 {
+                let own = (*shared).clone();
+                drop(shared);
+                work(&own, t)
+            } else {
+                work(&shared, t)
+            }
+        }));
+    }
+    let results: Vec<Option<Vec<String>>> = handles.into_iter().map(|h| h.join().ok()).collect();
+    let mut bad = false;
+    for (t, got) in results.into_iter().enumerate() {
+        let solo: Vec<String> = match &expected {
+            Some(e) => e.get(t).cloned().unwrap_or_default(),
+            None => work(&Regex::new(pattern).expect("pattern compiles"), t),
+        };
+        if got.as_ref() != Some(&solo) {
+            eprintln!("C18-MISMATCH scenario 5 thread {}: concurrent {:?} solo {:?}", t, got, solo);
+            bad = true;
+        }
+    }
+    if bad {
+        std::process::exit(1);
+    }
+}
+
 /// Which operation thread `t` performs as its `k`-th: the first operation of threads 0 and 2 is the
 /// metadata one (first concurrent use of anything lazily built), the rest rotate through the API.
 fn kind_of(t: usize, k: usize, which: usize) -> usize {
@@ -158,6 +228,10 @@ fn main() {
     ];
     if which == 4 {
         drop_race(solo_mode, expected);
+        return;
+    }
+    if which == 5 {
+        templates(solo_mode, expected);
         return;
     }
     let (pattern, texts) = scenarios[which % scenarios.len()];
